@@ -7,6 +7,7 @@ import (
 	"fmt"
 	"hash/fnv"
 	"runtime"
+	"sort"
 	"strconv"
 	"strings"
 	"sync"
@@ -36,6 +37,7 @@ const (
 type Thread struct {
 	ID     int
 	Name   string
+	Key    string // stable identity: creator/entry-function#ordinal (independent of arrival order)
 	goid   uint64
 	client bool
 	done   bool
@@ -47,6 +49,7 @@ type Thread struct {
 	grant  chan struct{}
 
 	spinSeen map[string]uint64
+	foreign  uint64   // events caused by anybody else (other threads, environment, clock)
 	Sites    []string // trace of sites (only when Env.TraceSites)
 }
 
@@ -80,36 +83,38 @@ type PointRec struct {
 
 // Config holds per-execution knobs set by the scenario.
 type Config struct {
-	Classes    []string      // enabled hook-name prefixes for Point (Spin/Acquire are always on)
-	Tick       time.Duration // idle quantum of the scheduler (virtual)
-	Horizon    time.Duration // virtual time after which unfinished clients mean "hang"
-	Grace      time.Duration // virtual drain time after the clients are done
-	NoIdleAlt  bool          // do not offer "idle" as an alternative when something is enabled
-	NoPreAlt   bool          // do not offer thread-switch alternatives (threads run in default order)
-	KeepMenus  bool
-	TraceSites bool
-	WantLeaks  bool // compute Leaked after the drain
-	MaxSteps   int  // decisions per execution before the verdict "livelock" (default 200000)
+	Classes     []string      // enabled hook-name prefixes for Point (Spin/Acquire are always on)
+	Tick        time.Duration // idle quantum of the scheduler (virtual)
+	Horizon     time.Duration // virtual time after which unfinished clients mean "hang"
+	Grace       time.Duration // virtual drain time after the clients are done
+	NoIdleAlt   bool          // do not offer "idle" as an alternative when something is enabled
+	IdleEnvOnly bool          // offer "idle" only where an environment action is on the menu (hold a delivery)
+	NoPreAlt    bool          // do not offer thread-switch alternatives (threads run in default order)
+	KeepMenus   bool
+	TraceSites  bool
+	WantLeaks   bool // compute Leaked after the drain
+	MaxSteps    int  // decisions per execution before the verdict "livelock" (default 20000)
 }
 
 // Env is the per-execution context.
 type Env struct {
 	Cfg Config
 
-	mu       sync.Mutex
-	threads  []*Thread
-	byGoid   map[uint64]*Thread
-	wake     chan struct{}
-	root     uint64
-	events   uint64
-	steps    int
-	last     *Thread
-	cur      *Thread
-	poisoned bool
-	draining bool
-	start    time.Time
-	sources  []EnvSource
-	finish   []func()
+	mu        sync.Mutex
+	threads   []*Thread
+	byGoid    map[uint64]*Thread
+	nameCount map[string]int
+	wake      chan struct{}
+	root      uint64
+	events    uint64
+	steps     int
+	last      *Thread
+	cur       *Thread
+	poisoned  bool
+	draining  bool
+	start     time.Time
+	sources   []EnvSource
+	finish    []func()
 
 	prefix   []int
 	prefixFP []uint32
@@ -172,11 +177,50 @@ func (e *Env) classOn(n string) bool {
 	return false
 }
 
+// nameOf derives a stable name for the calling goroutine from its entry function and its creator
+// (must be called with e.mu held).
+func (e *Env) nameOf() string {
+	buf := make([]byte, 16384)
+	n := runtime.Stack(buf, false)
+	lines := strings.Split(strings.TrimRight(string(buf[:n]), "\n"), "\n")
+	entry, parent := "?", "?"
+	for i := len(lines) - 1; i >= 0; i-- {
+		l := lines[i]
+		if strings.HasPrefix(l, "created by ") {
+			rest := strings.TrimPrefix(l, "created by ")
+			if k := strings.Index(rest, " in goroutine "); k > 0 {
+				pg, _ := strconv.ParseUint(strings.TrimSpace(rest[k+len(" in goroutine "):]), 10, 64)
+				if pt := e.byGoid[pg]; pt != nil {
+					parent = pt.Key
+				} else if pg == e.root {
+					parent = "root"
+				}
+			}
+			// the entry function is the frame above "created by": two lines up (func line, file line)
+			if i >= 2 {
+				entry = lines[i-2]
+				if k := strings.LastIndex(entry, "("); k > 0 {
+					entry = entry[:k]
+				}
+			}
+			break
+		}
+	}
+	entry = strings.TrimPrefix(entry, "github.com/scrapli/scrapligo/")
+	return parent + ">" + entry
+}
+
 // Point lets harness code (fake transports, client programs) yield like a library hook.
 func (e *Env) Point(n string) { e.hook(n, kPoint, nil) }
 
 func (e *Env) hook(n string, k kind, m interface{}) {
 	if k == kPoint && !strings.HasPrefix(n, "h.") && !e.classOn(n) {
+		return
+	}
+	if k == kAcquire && !e.classOn(n) && tryFree(n, m) {
+		// lock is free and its class is not being explored: merge this step with the next
+		// (coarser but sound); a held lock still parks the thread so that nobody ever blocks
+		// on a mutex, which synctest could not see as durably blocked
 		return
 	}
 	g := goid()
@@ -191,7 +235,9 @@ func (e *Env) hook(n string, k kind, m interface{}) {
 	th := e.byGoid[g]
 	if th == nil {
 		th = &Thread{ID: len(e.threads), goid: g, grant: make(chan struct{}), spinSeen: map[string]uint64{}}
-		th.Name = "lib" + strconv.Itoa(th.ID)
+		th.Name = e.nameOf()
+		th.Key = th.Name + "#" + strconv.Itoa(e.nameCount[th.Name])
+		e.nameCount[th.Name]++
 		e.threads = append(e.threads, th)
 		e.byGoid[g] = th
 	}
@@ -215,7 +261,7 @@ func (e *Env) hook(n string, k kind, m interface{}) {
 
 // Go starts a client thread; it parks before running f.
 func (e *Env) Go(name string, f func()) *Thread {
-	th := &Thread{ID: len(e.threads), Name: name, client: true, grant: make(chan struct{}), spinSeen: map[string]uint64{}}
+	th := &Thread{ID: len(e.threads), Name: name, Key: name, client: true, grant: make(chan struct{}), spinSeen: map[string]uint64{}}
 	e.threads = append(e.threads, th)
 	go func() {
 		g := goid()
@@ -223,6 +269,13 @@ func (e *Env) Go(name string, f func()) *Thread {
 		th.goid = g
 		e.byGoid[g] = th
 		e.mu.Unlock()
+		defer func() {
+			// during teardown library goroutines are ended with Goexit; their deferred close()
+			// of result channels can make a caller dereference a nil result: harness artefact
+			if e.poisoned {
+				_ = recover()
+			}
+		}()
 		e.hook("h.start", kPoint, nil)
 		f()
 		e.mu.Lock()
@@ -276,6 +329,31 @@ type option struct {
 	cost  uint8
 }
 
+func tryFree(site string, mu interface{}) bool {
+	switch m := mu.(type) {
+	case *sync.Mutex:
+		if m.TryLock() {
+			m.Unlock()
+			return true
+		}
+		return false
+	case *sync.RWMutex:
+		if strings.HasSuffix(site, "rlock") {
+			if m.TryRLock() {
+				m.RUnlock()
+				return true
+			}
+			return false
+		}
+		if m.TryLock() {
+			m.Unlock()
+			return true
+		}
+		return false
+	}
+	return true
+}
+
 func (e *Env) enabled(th *Thread) bool {
 	if !th.parked || th.done {
 		return false
@@ -285,30 +363,9 @@ func (e *Env) enabled(th *Thread) bool {
 		return true
 	case kSpin:
 		seen, ok := th.spinSeen[th.site]
-		return !ok || seen != e.events
+		return !ok || seen != th.foreign
 	case kAcquire:
-		switch m := th.mu.(type) {
-		case *sync.Mutex:
-			if m.TryLock() {
-				m.Unlock()
-				return true
-			}
-			return false
-		case *sync.RWMutex:
-			if strings.HasSuffix(th.site, "rlock") {
-				if m.TryRLock() {
-					m.RUnlock()
-					return true
-				}
-				return false
-			}
-			if m.TryLock() {
-				m.Unlock()
-				return true
-			}
-			return false
-		}
-		return true
+		return tryFree(th.site, th.mu)
 	}
 	return true
 }
@@ -316,32 +373,48 @@ func (e *Env) enabled(th *Thread) bool {
 func (e *Env) menu() []option {
 	var out []option
 	if e.last != nil && e.enabled(e.last) {
-		out = append(out, option{label: "t" + strconv.Itoa(e.last.ID) + "@" + e.last.site, th: e.last})
+		out = append(out, option{label: e.last.Key + "@" + e.last.site, th: e.last})
 	}
+	var others []*Thread
 	for _, th := range e.threads {
 		if th == e.last || !e.enabled(th) {
 			continue
 		}
-		c := uint8(CostPre)
-		if e.Cfg.NoPreAlt && len(out) > 0 {
-			continue
-		}
-		out = append(out, option{label: "t" + strconv.Itoa(th.ID) + "@" + th.site, th: th, cost: c})
+		others = append(others, th)
 	}
+	sort.Slice(others, func(i, j int) bool { return others[i].Key < others[j].Key })
+	for _, th := range others {
+		if e.Cfg.NoPreAlt && len(out) > 0 {
+			break
+		}
+		out = append(out, option{label: th.Key + "@" + th.site, th: th, cost: CostPre})
+	}
+	hasEnv := false
 	for _, s := range e.sources {
 		acts := s.Actions()
 		for i := range acts {
 			a := acts[i]
 			out = append(out, option{label: a.Label, act: &a, cost: CostEnv})
+			hasEnv = true
 		}
 	}
 	if len(out) > 0 {
 		out[0].cost = CostNone
-		if !e.Cfg.NoIdleAlt {
+		if !e.Cfg.NoIdleAlt && (hasEnv || !e.Cfg.IdleEnvOnly) {
 			out = append(out, option{label: "idle", idle: true, cost: CostEnv})
 		}
 	}
 	return out
+}
+
+// event records that something happened which pollers other than by may want to look at.
+func (e *Env) event(by *Thread) {
+	e.events++
+	for _, th := range e.threads {
+		if th != by {
+			th.foreign++
+		}
+	}
 }
 
 func (e *Env) clientsDone() bool {
@@ -390,7 +463,7 @@ func (e *Env) idle(limit time.Duration) {
 		case <-t.C:
 		default:
 		}
-		e.events++
+		e.event(nil)
 	}
 	select {
 	case <-e.wake:
@@ -410,7 +483,7 @@ func (e *Env) describeThreads() string {
 				st += "(disabled)"
 			}
 		}
-		fmt.Fprintf(&sb, "t%d[%s]=%s ", th.ID, th.Name, st)
+		fmt.Fprintf(&sb, "[%s]=%s ", th.Key, st)
 	}
 	return sb.String()
 }
@@ -421,6 +494,7 @@ func (e *Env) run(body func(*Env)) {
 	e.root = goid()
 	e.wake = make(chan struct{}, 1)
 	e.byGoid = map[uint64]*Thread{}
+	e.nameCount = map[string]int{}
 	if e.Cfg.Tick == 0 {
 		e.Cfg.Tick = time.Second
 	}
@@ -428,7 +502,7 @@ func (e *Env) run(body func(*Env)) {
 		e.Cfg.Horizon = 1000 * e.Cfg.Tick
 	}
 	if e.Cfg.MaxSteps == 0 {
-		e.Cfg.MaxSteps = 200000
+		e.Cfg.MaxSteps = 20000
 	}
 	current = e
 	body(e)
@@ -556,15 +630,17 @@ func (e *Env) apply(o option) {
 		if th.kind == kSpin {
 			// a poll is presumed read-only: it is not an event for the other pollers (else two
 			// pollers would re-enable each other for ever at one virtual instant); whatever it
-			// changes becomes visible to them at the next tick at the latest
-			th.spinSeen[th.site] = e.events
+			// changes becomes visible to them at the next tick at the latest. A thread's own
+			// steps never re-enable its own polls (else a poll loop without a sleep would starve
+			// everybody else under the run-on default).
+			th.spinSeen[th.site] = th.foreign
 		} else {
-			e.events++
+			e.event(th)
 		}
 		e.last, e.cur = th, th
 		th.grant <- struct{}{}
 	case o.act != nil:
-		e.events++
+		e.event(nil)
 		o.act.Do()
 	}
 	if e.steps > e.Cfg.MaxSteps {
